@@ -32,6 +32,9 @@ def configs(tier):
     cfgs.append(stages.MultiTan(nimg=3, W=2))
     cfgs.append(stages.MultiWcs(nimg=2, W=2))
     cfgs.append(V(kind="generic", depth=1, W=2, quiet_messages=True, foreign_child=True))
+    # deep pyramids restricted to an apex just above the leaves
+    cfgs.append(V(kind="generic", depth=10, W=2, apex=(9, 300, 7)))
+    cfgs.append(V(kind="toast", depth=9, W=2, apex=(8, 5, 9)))
     if tier == "quick":
         # larger item sets (16 leaves / 21 tiles, more than the bounded queue holds) whose full graphs belong to
         # the thorough tier: every schedule within a few departures from the default order
